@@ -9,7 +9,19 @@ pub broadcast proof fn axiom_text_bytes_push(s: Seq<char>, c: char) ensures #[tr
 #[verifier::external_body]
 pub broadcast proof fn axiom_text_bytes_empty() ensures #[trigger] text_bytes(Seq::<char>::empty()) == 0 {}
 pub assume_specification [String::len] (s: &String) -> (r: usize) ensures r == text_bytes(s@);
-pub assume_specification [<char>::is_ascii_digit] (c: &char) -> (r: bool);
+pub assume_specification [<char>::is_ascii_digit] (c: &char) -> (r: bool) ensures r == ('0' <= *c <= '9');
+/// UTF-8: an ASCII character is one byte
+#[verifier::external_body]
+pub broadcast proof fn axiom_text_bytes_ascii(s: Seq<char>, c: char) requires (c as u32) < 128 ensures #[trigger] text_bytes(s.push(c)) == text_bytes(s) + 1 {}
+/// the characters of the text handed to str::parse::<f64>: digits, one '.', an exponent marker and its sign — never a locale separator
+pub open spec fn plain(c: char) -> bool { ('0' <= c <= '9') || c == '.' || c == 'e' || c == '+' || c == '-' }
+pub open spec fn all_plain(s: Seq<char>) -> bool { forall|k: int| 0 <= k < s.len() ==> plain(#[trigger] s[k]) }
+/// C19 "correctly placed group separators": every separator stands after at least one digit and is followed by whole groups of three digits
+/// (at least one), and no two separators are adjacent.  `seps[i]` = number of integer digits before the i-th separator, `n` = number of integer digits.
+pub open spec fn well_grouped(seps: Seq<usize>, n: int) -> bool {
+    (forall|i: int| 0 <= i < seps.len() ==> 0 < #[trigger] seps[i] < n && (n - seps[i]) % 3 == 0)
+        && (forall|i: int, j: int| 0 <= i < j < seps.len() ==> seps[i] < seps[j])
+}
 /// `value.chars().collect()` (iterator adapters are outside Verus): the characters of the text; a Vec never holds more than isize::MAX bytes (std) and a char has 4
 #[verifier::external_body]
 pub fn shim_chars(value: &str) -> (r: Vec<char>) ensures r@ == value@, r@.len() <= (isize::MAX as int) / 4 { value.chars().collect() }
@@ -21,7 +33,7 @@ pub struct Scanned { pub position: usize, pub len: usize }
 pub fn parse_number_scan(value: &str, decimal_separator: char, group_separator: char) -> (r: core::result::Result<Scanned, String>)
     ensures r matches Ok(s) ==> s.position == s.len,
 {
-    broadcast use axiom_text_bytes_push, axiom_text_bytes_empty;
+    broadcast use axiom_text_bytes_push, axiom_text_bytes_empty, axiom_text_bytes_ascii;
 //@fragment base/src/formatter/format.rs parse_number `let mut position = 0;` .. `if position != len {`
 //@rewrite `let characters: Vec<char> = value.chars().collect();` => `let characters: Vec<char> = shim_chars(value);`
 //@rewrite `let mut chars = String::from("");` => `let mut chars = shim_empty_string();`
@@ -33,15 +45,27 @@ pub fn parse_number_scan(value: &str, decimal_separator: char, group_separator: 
 //@rewritex2 `1.0` => `1i8`
 //@loop 1
         invariant position <= len, len == characters@.len(),
-            forall|i: int| 0 <= i < group_separator_index@.len() ==> group_separator_index@[i] <= text_bytes(chars@),
+            forall|i: int| 0 <= i < group_separator_index@.len() ==> 1 <= #[trigger] group_separator_index@[i] <= text_bytes(chars@),
+            forall|i: int, j: int| 0 <= i < j < group_separator_index@.len() ==> group_separator_index@[i] < group_separator_index@[j],
+            position == start ==> text_bytes(chars@) == 0, position > start ==> text_bytes(chars@) >= 1,
+            start < len, position >= start, characters@[start as int] != group_separator, all_plain(chars@),
         decreases len - position
+//@loop 2
+        invariant forall|j: int| 0 <= j < it.index@ ==> (#[trigger] group_separator_index@[j]) < text_bytes(chars@) && (text_bytes(chars@) - group_separator_index@[j]) % 3 == 0,
+//@before `let mut decimal_digits = 0;`
+    // C19: a number is accepted only with correctly placed group separators
+    assert(well_grouped(group_separator_index@, text_bytes(chars@) as int));
+//@before `// numbers before the decimal point`
+    let ghost start = position;
 //@loop 3
-        invariant position <= len, len == characters@.len()
+        invariant position <= len, len == characters@.len(), all_plain(chars@)
         decreases len - position
 //@loop 4
-        invariant position <= len, len == characters@.len()
+        invariant position <= len, len == characters@.len(), all_plain(chars@)
         decreases len - position
 //@end
+    // C19: what is parsed as a double is written with '.' and without group separators, whatever the locale's symbols are
+    assert(all_plain(chars@));
     Ok(Scanned { position, len })
 }
 } // verus!
